@@ -48,7 +48,8 @@ def loop_inv(src, list_name, rel, it="vx_it", extra=""):
             pk_rest(&{it}).len() == ppairs({src}).len() - k,
             forall|j: int| 0 <= j < pk_rest(&{it}).len() ==> *(#[trigger] pk_rest(&{it})[j]) == ppairs({src})[k + j],
             forall|i: int, s: Shape| 0 <= i < ppairs({src}).len() ==> #[trigger] {{FMT}}.requires((ctx, &pair_value(ppairs({src})[i]), s)),
-            ppairs({list_name}).len() == k, ppairs({src}).len() < usize::MAX,{extra}
+            ppairs({src}).len() < usize::MAX,{extra}
+            ppairs({list_name}).len() == k, //# C02.list_loop
             forall|i: int| 0 <= i < k ==> {rel}({{FMT}}, ctx, pair_value(#[trigger] ppairs({src})[i]), pair_value(ppairs({list_name})[i])), //# C02.list_loop
         ensures k == ppairs({src}).len(),
         decreases pk_rest(&{it}).len(),
